@@ -294,7 +294,7 @@ fn unit(d: &Decimal) -> BigUint { BigUint::from(d.value) * BigUint::from(10u8).p
 enum Verdict { Ok(bool), Known(&'static str, String), Fail(String) }
 
 /// literal deviation clause on one accepted price: |x − ref| ≤ ⌊ref·f/U⌋ for both bounds
-fn deviation(min: &BigUint, max: &BigUint, mult: u8, ratio: u32, r: Option<&Decimal>) -> Verdict {
+fn deviation(min: &BigUint, max: &BigUint, mult: u8, ratio: u32, r: Option<&Decimal>, adjust_enabled: bool) -> Verdict {
     if ratio == 0 { return Verdict::Ok(false); }
     let refp = match r { Some(d) => unit(d), None => (min + max) / BigUint::from(2u8) };
     let dev = &refp * BigUint::from(ratio as u128 * RATIO_MULT) / BigUint::from(UNIT);
@@ -302,6 +302,11 @@ fn deviation(min: &BigUint, max: &BigUint, mult: u8, ratio: u32, r: Option<&Deci
     let worst = ad(min).max(ad(max));
     if worst <= dev { return Verdict::Ok(true); }
     let zero = BigUint::from(0u8);
+    if dev == zero && adjust_enabled {
+        // F-C24a is the VALIDATOR skipping; with price adjustment enabled the adjuster clamps both bounds to
+        // the reference first, so an accepted price that differs from its reference is not covered by it
+        return Verdict::Fail(format!("adjustment enabled and floored deviation 0, but the accepted price is {worst} away from the reference {refp} (must be clamped to it)"));
+    }
     if dev == zero {
         return Verdict::Known("F-C24a", format!("deviation check skipped: floor(ref*factor/UNIT) = 0, price is {worst} away from the reference {refp}"));
     }
@@ -348,7 +353,7 @@ fn oracle(req: &str, resp: &str) -> Vec<Verdict> {
             if ots > now + max_future { out.push(Verdict::Fail("price too far in the future accepted".into())); }
             let (p, r) = parse_price(&t[11..18]).unwrap();
             // (well-formedness of min/max is the price map's job, checked by `fromprice` / `batch`)
-            out.push(deviation(&unit(&p.min), &unit(&p.max), p.max.decimal_multiplier, t[8].parse().unwrap(), r.as_ref()));
+            out.push(deviation(&unit(&p.min), &unit(&p.max), p.max.decimal_multiplier, t[8].parse().unwrap(), r.as_ref(), false));
         }
         "batch" => {
             let (head, after) = resp.split_once(" || ").unwrap_or((resp, ""));
@@ -375,7 +380,7 @@ fn oracle(req: &str, resp: &str) -> Vec<Verdict> {
                     None => out.push(Verdict::Fail(format!("feed {i}: accepted but no price stored"))),
                     Some((mn, mx)) if last => {
                         if *mn == BigUint::from(0u8) || mn > mx { out.push(Verdict::Fail(format!("feed {i}: stored price not 0 < min <= max"))); }
-                        out.push(deviation(mn, mx, f.price.max.decimal_multiplier, f.ratio, f.r.as_ref()));
+                        out.push(deviation(mn, mx, f.price.max.decimal_multiplier, f.ratio, f.r.as_ref(), f.allow_adjust && f.found));
                     }
                     _ => {}
                 }
